@@ -153,5 +153,15 @@ claim(
     "generated multi-module packages is not decided.",
     TB + "; the reference scoping rule is written in the rule module (class scopes do not nest; functions see their class body)",
 )
+claim(
+    "C07",
+    "finite-domain abstract evaluation of Class.mro / c3linear_merge / inherited_members (own evaluator over their ASTs) on every class "
+    "hierarchy of up to four (thorough: five) classes with every ordered choice of bases, compared with CPython's own type.__mro__; handler "
+    "and frame checks for cycles and member lookup",
+    "The computed order equals CPython's on all small hierarchies (309 rows quick, ~10k thorough), inconsistent ones raise ValueError, "
+    "cycles raise instead of looping and are tolerated by the consumers; inherited members wrap the nearest definition as inherited aliases "
+    "under the subclass and never shadow own members. Larger hierarchies are covered only through the algorithm being the same.",
+    TB + "; CPython's type() is the reference for MRO and for which hierarchies are inconsistent",
+)
 for _p in [f"C{n:02d}" for n in range(1, 20) if f"C{n:02d}" not in CLAIMED]:
     NOT_YET[_p] = "check under construction in this round (static rules designed in DESIGN.md section 3; not yet registered)"
